@@ -138,6 +138,8 @@ class OperatorPar(OperatorBase):
             expr.shift()
         if len(self.args)!=self.narg:
             raise Exception("Wrong number of arguments:", expr.expr, len(self.args), self.narg)
+        if any(arg.expr=='' for arg in self.args):
+            raise Exception("Empty parentheses or empty argument in", expr.expr)
         
     def operate_args(self, tokens):
         tokens.put_left(self.args[0])
